@@ -151,6 +151,9 @@ struct BarrierPlan {
     gated_requests: u32,
     boxed: bool,
     delay_pm: u64,
+    /// per mille of entries the stream answers with an error (alternately I/O and validation); they
+    /// were handed to the stream all the same, and the flush after them is owed all the same
+    err_pm: u64,
     seed: u64,
 }
 
@@ -191,6 +194,20 @@ fn barrier_history(plan: &BarrierPlan, rep: &Report) -> Option<u64> {
 fn barrier_inner(plan: &BarrierPlan) -> (Vec<FlushRec>, Vec<Ev>, Option<Value>) {
     let sh = StreamShared::new(plan.seed);
     sh.delay_per_mille.store(plan.delay_pm, Ordering::Relaxed);
+    if plan.err_pm > 0 {
+        let pm = plan.err_pm;
+        sh.set_script(move |k| match k {
+            vcommon::stream::EntryKind::Id(id) => {
+                let h = Fnv::new().u64(*id).finish();
+                if h % 1000 < pm {
+                    if (h >> 20) % 2 == 0 { vcommon::stream::Outcome::Io } else { vcommon::stream::Outcome::Validation }
+                } else {
+                    vcommon::stream::Outcome::Ok
+                }
+            }
+            _ => vcommon::stream::Outcome::Ok,
+        });
+    }
     let (q, handle) = build(&sh, plan.capacity, Duration::from_micros(plan.flush_us), plan.boxed);
     let n = plan.producers as usize;
     // slot n is the gater's own producer id
@@ -315,6 +332,7 @@ fn gen_barrier_plan(rng: &mut Rng, thorough: bool) -> BarrierPlan {
         gated_requests: rng.below(4) as u32,
         boxed: rng.bool(),
         delay_pm: *rng.pick(&[0u64, 0, 100, 600]),
+        err_pm: *rng.pick(&[0u64, 0, 200, 1000]),
         seed: rng.next_u64(),
     }
 }
@@ -1013,6 +1031,7 @@ fn tiny_main(args: &Args, rep: &Report) {
         gated_requests: (v % 2) as u32,
         boxed: v % 3 == 0,
         delay_pm: 300,
+        err_pm: 500,
         seed: args.seed + v,
     };
     rep.eval();
